@@ -205,8 +205,11 @@ def _alt_family():
     main = st.one_of(
         st.just({"id": F_BZIP2}), st.just({"id": F_DEFLATE}), st.just({"id": F_DEFLATE64}), st.just({"id": F_COPY}),
         st.integers(1, 19).map(lambda l: {"id": F_ZSTD, "level": l}),
+        # KF-72 (open, dependency): pyppmd cannot round-trip > ~90 kB of incompressible input through a model of exactly 1 MiB.
+        # The general strategy constructs around that size (2 MiB instead); C01 keeps it in its covering pass and pin, where the
+        # defect is decided by running the library alone.
         st.builds(lambda o, m: {"id": F_PPMD, "order": o, "mem": m}, st.integers(2, 16),
-                  st.one_of(st.integers(16, 26), st.sampled_from(["16m", "4m", "512k", "24", "1m"]))),
+                  st.one_of(st.sampled_from([16, 17, 18, 19, 21, 22, 23, 24, 25, 26]), st.sampled_from(["16m", "4m", "512k", "24", "2m"]))),
         st.integers(0, 11).map(lambda l: {"id": F_BROTLI, "level": l}),
     )
     bcj = st.one_of(st.none(), st.none(), st.sampled_from(BCJ_ALT).map(lambda i: {"id": i}))
